@@ -54,14 +54,17 @@ VisValid(x) ==
   /\ (x.site = "closure" => x.path \in {"arrow", "scope"})
 
 \* ------------------------------------------------------------------ declared types
-Types == {"int", "string", "array", "D", "I", "?int", "int|string", "?D"}
-Kinds == {"int", "string", "float", "bool", "null", "array", "objD", "objS", "objX", "objImpl"}
+Types == {"int", "string", "array", "D", "I", "J", "?int", "int|string", "?D", "?I"}
+\* interface I extends J; Impl implements I, ImplSub extends Impl; JImpl implements J, JImplSub extends JImpl
+Kinds == {"int", "string", "float", "bool", "null", "array", "objD", "objS", "objX", "objImpl", "objImplSub", "objJImpl", "objJImplSub"}
 Boundaries == {"prop", "static-prop", "param-func", "param-method", "param-static", "param-ctor", "param-closure", "return-func", "return-method", "return-closure"}
 IsParam(b) == b \in {"param-func", "param-method", "param-static", "param-ctor", "param-closure"}
 RECURSIVE Accepts(_, _)
 Accepts(t, k) == CASE t = "int" -> k = "int" [] t = "string" -> k = "string" [] t = "array" -> k = "array"
                    [] t = "D" -> k \in {"objD", "objS"}            \* S extends D
-                   [] t = "I" -> k = "objImpl"                     \* Impl implements I
+                   [] t = "I" -> k \in {"objImpl", "objImplSub"}  \* directly or through the parent class
+                   [] t = "J" -> k \in {"objImpl", "objImplSub", "objJImpl", "objJImplSub"}   \* through the parent interface too
+                   [] t = "?I" -> k = "null" \/ Accepts("I", k)
                    [] t = "?int" -> k = "null" \/ Accepts("int", k)
                    [] t = "?D" -> k = "null" \/ Accepts("D", k)
                    [] t = "int|string" -> Accepts("int", k) \/ Accepts("string", k)
@@ -82,6 +85,9 @@ InstShapes == {"concrete", "abstract", "interface", "abstract-child-of-concrete"
                "missing-grand-abstract", "missing-grand-abstract-mid-declares", "implements-grand-abstract", "mid-implements-grand-abstract",
                "missing-one-of-two", "missing-interface-method", "missing-interface-method-of-grand", "missing-parent-interface-method",
                "implements-interface", "inherits-interface-method"}
+\* how the class is named at the instantiation: new C(), new $name(), new (expr)(), new self(), new static()
+InstVias == {"literal", "varname", "expr", "self", "static"}
+InstValid(s, v) == s = "interface" => v \in {"literal", "varname", "expr"}      \* an interface has no code of its own
 Instantiable(s) == s \in {"concrete", "implements-parent-abstract", "implements-grand-abstract", "mid-implements-grand-abstract",
                           "implements-interface", "inherits-interface-method"}
 
@@ -91,7 +97,7 @@ vars == <<sc, done>>
 Init == /\ done = FALSE
         /\ CASE Aspect = "vis" -> sc \in {x \in VisScenarios : VisValid(x)}
              [] Aspect = "type" -> sc \in {[type |-> t, val |-> k, at |-> b] : t \in Types, k \in Kinds, b \in Boundaries}
-             [] Aspect = "inst" -> sc \in {[shape |-> s] : s \in InstShapes}
+             [] Aspect = "inst" -> sc \in {x \in {[shape |-> s, via |-> v] : s \in InstShapes, v \in InstVias} : InstValid(x.shape, x.via)}
 Verdict == CASE Aspect = "vis" -> [ok |-> Allowed(sc.mod, sc.site), dev |-> AllowedDev(sc), devname |-> VisDevName(sc)]
              [] Aspect = "type" -> [ok |-> Accepts(sc.type, sc.val), dev |-> AcceptsDev(sc.type, sc.val, sc.at), devname |-> TypeDevName(sc.type, sc.val, sc.at)]
              [] Aspect = "inst" -> [ok |-> Instantiable(sc.shape), dev |-> Instantiable(sc.shape), devname |-> "none"]
@@ -104,4 +110,7 @@ Monotone == \A s \in Sites : (Allowed("private", s) => Allowed("protected", s)) 
 NullableLaw == \A k \in Kinds : Accepts("?int", k) = (k = "null" \/ Accepts("int", k))
 UnionLaw == \A k \in Kinds : Accepts("int|string", k) = (Accepts("int", k) \/ Accepts("string", k))
 SubclassAccepted == Accepts("D", "objS") /\ ~Accepts("D", "objX")
+\* an interface type accepts at least what its child interface accepts, and the converse fails
+InterfaceLaw == /\ \A k \in Kinds : Accepts("I", k) => Accepts("J", k)
+                /\ \E k \in Kinds : Accepts("J", k) /\ ~Accepts("I", k)
 =============================================================================
